@@ -4,11 +4,12 @@ import os, subprocess
 from . import core as _core
 
 
-def explore(core, pid, cmds, min_events=4, judge=None, with_corpus=True, race_cmds=None):
+def explore(core, pid, cmds, min_events=4, judge=None, with_corpus=True, race_cmds=None, also_judges=()):
     """cmds: list of harness argv tails (e.g. ["once", "7", "200"]). Returns the result dict used by ./check."""
     wd = os.path.join(core.WORK, pid)
     os.makedirs(wd, exist_ok=True)
     ann = os.path.join(wd, "traces.ann")
+    died = []
     with open(ann, "w") as fout:
         if with_corpus:
             d = os.path.join(core.ROOT, "corpus", pid)
@@ -17,11 +18,28 @@ def explore(core, pid, cmds, min_events=4, judge=None, with_corpus=True, race_cm
                     if f.endswith(".trace"):
                         fout.write(open(os.path.join(d, f)).read().rstrip("\n") + "\n")
         for argv in cmds:
-            p = subprocess.run([core.HARNESS] + [str(a) for a in argv], stdout=fout, stderr=subprocess.PIPE, text=True, timeout=3000)
-            if p.returncode != 0:
-                raise core.Internal("harness %s failed (rc=%d): %s" % (argv, p.returncode, p.stderr[-1500:]))
+            try:
+                p = subprocess.run([core.HARNESS] + [str(a) for a in argv], stdout=fout, stderr=subprocess.PIPE, text=True, timeout=1500)
+                rc, err = p.returncode, p.stderr
+            except subprocess.TimeoutExpired:
+                rc, err = -9, "harness timed out (the code under test hangs or deadlocks)"
+            if rc == 2 and "usage:" in err:
+                raise core.Internal("harness %s: bad invocation: %s" % (argv, err[-500:]))
+            if rc != 0:
+                # the process executing the code under test died (a panic in a goroutine, a fatal runtime error such as
+                # "all goroutines are asleep" or "unlock of unlocked mutex", a hang): that is behaviour of the implementation
+                died.append((" ".join(map(str, argv)), [l for l in err.strip().splitlines() if l.strip()][:25]))
+                fout.write("\n")
     r = core.judge_file(judge or pid, ann)
-    r["bad"] = [b for b in r["bad"] if not (b[3].startswith("model=bad-op") )] if False else r["bad"]
+    for j2 in also_judges:
+        # the same executions judged by a second judge (e.g. the step-level model acceptor): verdicts are merged
+        r2 = core.judge_file(j2, ann)
+        r["bad"] = r["bad"] + r2["bad"]
+        for k in ("cex", "corr", "int"):
+            r["summary"][k] = str(int(r["summary"].get(k, 0)) + int(r2["summary"].get(k, 0)))
+        r["summary"]["ok"] = str(min(int(r["summary"].get("ok", 0)), int(r2["summary"].get("ok", 0))))
+        for k, v in r2["summary"]["tags"].items():
+            r["summary"]["tags"][j2 + "." + k] = v
     lines = r["annotated"]
     # scenario boundaries
     blocks, cur = [], None
@@ -40,6 +58,10 @@ def explore(core, pid, cmds, min_events=4, judge=None, with_corpus=True, race_cm
         k = "<=8" if n <= 8 else "<=20" if n <= 20 else "<=50" if n <= 50 else ">50"
         sizes[k] = sizes.get(k, 0) + 1
     samples = [b[:14] for b in (blocks[:1] + blocks[len(blocks) // 2: len(blocks) // 2 + 1])]
+    for argv, rep in died:
+        blocks.append(["# harness process died running: harness " + argv] + rep)
+        r["bad"].append((len(blocks) - 1, 0, "cex", "the harness process died while executing the code under test: " + (rep[0] if rep else "?"), argv))
+        r["summary"]["cex"] = str(int(r["summary"].get("cex", 0)) + 1)
     races = []
     if race_cmds:
         races = core.race_run(race_cmds)
@@ -55,7 +77,7 @@ def explore(core, pid, cmds, min_events=4, judge=None, with_corpus=True, race_cm
     return r
 
 
-def replay(core, obj, path, pid, judge=None):
+def replay(core, obj, path, pid, judge=None, also_judges=()):
     """re-judge the recorded trace (deterministic); a race-detector report is replayed by re-running its command"""
     sc = obj.get("script") or []
     if sc and sc[0].startswith("# go race detector report for: harness "):
@@ -66,16 +88,45 @@ def replay(core, obj, path, pid, judge=None):
             print("\n".join("  " + l for l in found[0][1][:12]))
             print("VIOLATION property=%s replay=%s" % (pid, path))
         return 1 if found else 0
+    if sc and sc[0].startswith("# harness process died running: harness "):
+        argv = sc[0].split("harness ", 2)[2].split()
+        core.build_go_tools()
+        try:
+            p = subprocess.run([core.HARNESS] + argv, stdout=subprocess.DEVNULL, stderr=subprocess.PIPE, text=True, timeout=1500)
+            rc, err = p.returncode, p.stderr
+        except subprocess.TimeoutExpired:
+            rc, err = -9, "timed out"
+        print("replay %s: harness %s -> %s" % (pid, " ".join(argv), "died again: " + (err.strip().splitlines() or ["?"])[0] if rc != 0 else "completed normally"))
+        if rc != 0:
+            print("VIOLATION property=%s replay=%s" % (pid, path))
+        return 1 if rc != 0 else 0
     wd = os.path.join(core.WORK, pid)
     os.makedirs(wd, exist_ok=True)
     ann = os.path.join(wd, "replay.ann")
-    with open(ann, "w") as f:
-        f.write("reset\n" + "\n".join(obj.get("script") or []) + "\n")
     with core.Lock("lake"):
         core.lake_build(["typdriver"])
+    import re
+    m = next((re.match(r"# prog (.*) :: schedule (\d+)$", l) for l in sc if l.startswith("# prog ")), None)
+    target = {"cmap": "map", "cset": "set", "km 0": "km", "km 1": "krw"}.get(next((l for l in sc if not l.startswith("#")), ""))
+    if m and target:
+        # a controlled-scheduler execution: RE-EXECUTE the same program under the same schedule on the current tree and judge that
+        core.build_go_tools()
+        p = subprocess.run([core.HARNESS, "sched", target, "replay", "0", "0", "0", m.group(1), m.group(2)], stdout=subprocess.PIPE, stderr=subprocess.PIPE, text=True, timeout=300)
+        if p.returncode != 0:
+            raise core.Internal("harness sched replay failed: " + p.stderr[-1000:])
+        open(ann, "w").write(p.stdout)
+        print("replay %s: re-executed the recorded program and schedule on the current tree" % pid)
+    else:
+        with open(ann, "w") as f:
+            f.write("reset\n" + "\n".join(obj.get("script") or []) + "\n")
     r = core.judge_file(judge or pid, ann)
     for l in r["annotated"]:
         print("  " + l)
+    for j2 in also_judges:
+        if any(l.startswith("step ") for l in r["annotated"]):
+            r["bad"] = r["bad"] + core.judge_file(j2, ann)["bad"]
+    for b in r["bad"]:
+        print("  -> %s: %s" % (b[2], b[3]))
     kinds = [b[2] for b in r["bad"]]
     print("replay %s (recorded trace re-judged): %s" % (pid, kinds or "no disagreement"))
     if kinds:
